@@ -177,7 +177,7 @@ func genC12(ctx *fw.Ctx) []fw.Case {
 	inputs = append(inputs, rest...)
 	inputs = append(inputs, corpus.StressSources(ctx.Rand("stress"), ctx.Pick(6, 60), 20, 200)...)
 	inputs = append(inputs, rejectedInputs()...)
-	procs := ctx.Pick(3, 8)
+	procs := ctx.Pick(3, 5)
 	var cases []fw.Case
 	for p := 0; p < procs; p++ {
 		for i, s := range inputs {
